@@ -144,6 +144,85 @@ func c19PurityExpr(c *fw.Ctx, text string, histLen int) {
 	c19AddHarnessFuncs(funcs)
 	c19PurityExprGroup(c, calc, funcs, text, histLen, []int{0, 1, 2})
 	c19PurityExprGroup(c, calc, funcs, text, histLen, []int{3, 4, 3})
+	// the same under a user-supplied operations manager that hands out retained objects for equal scalar
+	// results (one TRUE, one FALSE, one object per number or string): what an operator returned is not the
+	// calculator's to write into
+	ops := &c19InterningOps{inner: variants.NewTypeUnsafeVariantOperations(), kept: map[string]*variants.Variant{}}
+	calc2 := calculator.NewExpressionCalculator()
+	calc2.SetVariantOperations(ops)
+	c19AddHarnessFuncs(calc2.DefaultFunctions())
+	if err := calc2.SetExpression(text); err != nil {
+		return
+	}
+	c19PurityExprGroup(c, calc2, funcs, text, histLen, []int{0, 1, 2})
+	for k, v := range ops.kept {
+		if variantStr(v) != k {
+			c.Violation("evaluation-writes-into-operator-result", "expression %q under an operations manager that keeps the objects it returns: the object returned for %s now holds %s", text, k, variantStr(v))
+			return
+		}
+	}
+}
+
+// c19InterningOps wraps the type-unsafe manager and returns one retained object per distinct scalar result.
+type c19InterningOps struct {
+	inner variants.IVariantOperations
+	kept  map[string]*variants.Variant
+}
+
+func (o *c19InterningOps) keep(v *variants.Variant, err error) (*variants.Variant, error) {
+	if err != nil || v == nil {
+		return v, err
+	}
+	switch v.Type() {
+	case variants.Array, variants.Object:
+		return v, err
+	}
+	k := variantStr(v)
+	if kv, ok := o.kept[k]; ok && variantStr(kv) == k {
+		return kv, nil
+	}
+	o.kept[k] = v
+	return v, nil
+}
+func (o *c19InterningOps) Convert(a *variants.Variant, t variants.VariantType) (*variants.Variant, error) {
+	r, err := o.inner.Convert(a, t)
+	if r == a {
+		return r, err // the operand itself handed through
+	}
+	return o.keep(r, err)
+}
+func (o *c19InterningOps) Add(a, b *variants.Variant) (*variants.Variant, error) { return o.keep(o.inner.Add(a, b)) }
+func (o *c19InterningOps) Sub(a, b *variants.Variant) (*variants.Variant, error) { return o.keep(o.inner.Sub(a, b)) }
+func (o *c19InterningOps) Mul(a, b *variants.Variant) (*variants.Variant, error) { return o.keep(o.inner.Mul(a, b)) }
+func (o *c19InterningOps) Div(a, b *variants.Variant) (*variants.Variant, error) { return o.keep(o.inner.Div(a, b)) }
+func (o *c19InterningOps) Mod(a, b *variants.Variant) (*variants.Variant, error) { return o.keep(o.inner.Mod(a, b)) }
+func (o *c19InterningOps) Pow(a, b *variants.Variant) (*variants.Variant, error) { return o.keep(o.inner.Pow(a, b)) }
+func (o *c19InterningOps) And(a, b *variants.Variant) (*variants.Variant, error) { return o.keep(o.inner.And(a, b)) }
+func (o *c19InterningOps) Or(a, b *variants.Variant) (*variants.Variant, error)  { return o.keep(o.inner.Or(a, b)) }
+func (o *c19InterningOps) Xor(a, b *variants.Variant) (*variants.Variant, error) { return o.keep(o.inner.Xor(a, b)) }
+func (o *c19InterningOps) Lsh(a, b *variants.Variant) (*variants.Variant, error) { return o.keep(o.inner.Lsh(a, b)) }
+func (o *c19InterningOps) Rsh(a, b *variants.Variant) (*variants.Variant, error) { return o.keep(o.inner.Rsh(a, b)) }
+func (o *c19InterningOps) Not(a *variants.Variant) (*variants.Variant, error)    { return o.keep(o.inner.Not(a)) }
+func (o *c19InterningOps) Negative(a *variants.Variant) (*variants.Variant, error) {
+	return o.keep(o.inner.Negative(a))
+}
+func (o *c19InterningOps) Equal(a, b *variants.Variant) (*variants.Variant, error) {
+	return o.keep(o.inner.Equal(a, b))
+}
+func (o *c19InterningOps) NotEqual(a, b *variants.Variant) (*variants.Variant, error) {
+	return o.keep(o.inner.NotEqual(a, b))
+}
+func (o *c19InterningOps) More(a, b *variants.Variant) (*variants.Variant, error) { return o.keep(o.inner.More(a, b)) }
+func (o *c19InterningOps) Less(a, b *variants.Variant) (*variants.Variant, error) { return o.keep(o.inner.Less(a, b)) }
+func (o *c19InterningOps) MoreEqual(a, b *variants.Variant) (*variants.Variant, error) {
+	return o.keep(o.inner.MoreEqual(a, b))
+}
+func (o *c19InterningOps) LessEqual(a, b *variants.Variant) (*variants.Variant, error) {
+	return o.keep(o.inner.LessEqual(a, b))
+}
+func (o *c19InterningOps) In(a, b *variants.Variant) (*variants.Variant, error) { return o.keep(o.inner.In(a, b)) }
+func (o *c19InterningOps) GetElement(a, b *variants.Variant) (*variants.Variant, error) {
+	return o.inner.GetElement(a, b) // an element of the operand, handed through
 }
 
 func c19PurityExprGroup(c *fw.Ctx, calc *calculator.ExpressionCalculator, funcs functions.IFunctionCollection, text string, histLen int, group []int) {
